@@ -225,6 +225,11 @@ def oracle_det(rng, sets, n=4):
                        ("single_qubit_gate", g.single_qubit_gate(th, a, pc, T1c, T2c), np.eye(2), det_pred(2, [(TG, E1c)]), (th, a, pc, T1c, T2c)),
                        ("CR", g.CR(0.7, a, tt, 0.02, T1c, T2c, T1t, T2t), np.eye(4), det_pred(4, [(tt, E1c), (tt, E1t)]), (0.7, a, tt, 0.02, T1c, T2c, T1t, T2t)),
                        ("relaxation", g.relaxation(tt, T1c, T2c), np.eye(2), det_pred(2, [(tt, E1c)]), (tt, T1c, T2c)),
+                       # vanishing pulse area (the closed forms are 0/0 there) and a negative angle: same law, duration tt on both qubits
+                       ("CR", g.CR(0.0, a, tt, 0.02, T1c, T2c, T1t, T2t), np.eye(4), det_pred(4, [(tt, E1c), (tt, E1t)]), (0.0, a, tt, 0.02, T1c, T2c, T1t, T2t)),
+                       ("CR", g.CR(-1e-9, a, tt, 0.02, T1c, T2c, T1t, T2t), np.eye(4), det_pred(4, [(tt, E1c), (tt, E1t)]), (-1e-9, a, tt, 0.02, T1c, T2c, T1t, T2t)),
+                       ("CR", g.CR(-0.7, a, tt, 0.02, T1c, T2c, T1t, T2t), np.eye(4), det_pred(4, [(tt, E1c), (tt, E1t)]), (-0.7, a, tt, 0.02, T1c, T2c, T1t, T2t)),
+                       ("single_qubit_gate", g.single_qubit_gate(0.0, a, pc, T1c, T2c), np.eye(2), det_pred(2, [(TG, E1c)]), (0.0, a, pc, T1c, T2c)),
                        ("depolarizing", g.depolarizing(tt, pc), np.eye(2), 1, (tt, pc)), ("bitflip", g.bitflip(tt, 0.03), np.eye(2), 1, (tt, 0.03))]
                 for nm, tc in (('CNOT', tt), ('CNOT_inv', tt), ('ECR', tt - TG), ('ECR_inv', tt + TG)):
                     args = (a, b, tt, p2, pc, pt, T1c, T2c, T1t, T2t)
@@ -268,7 +273,7 @@ def oracle_zero_unitary(rng, sets, n=4):
     return cnt, out
 
 
-def oracle_blocks(rng, pulse=None, n=2, warm=True):
+def oracle_blocks(rng, pulse=None, n=2, warm=True, signs=None):
     """every stochastic block of the single-qubit and CR factories = strength * U^dag L U at the sample's integrand
     functions; sampler covariances and drift = independent quadrature (ported from notes/mutation/oracle_suite.py).
     warm: gate sets on OTHER pulse shapes living in the same process are asked for the same angles and durations first (the
@@ -280,7 +285,7 @@ def oracle_blocks(rng, pulse=None, n=2, warm=True):
     others = [standard_gates, Gates(ConstantPulseNumerical()), Gates(GaussianPulse(0.55, 0.2))] if warm else []
     Qd = lambda f, a: scipy.integrate.quad(f, 0, a, epsabs=1e-12, epsrel=1e-12)[0]
     for t in range(n):
-        th0 = rng.uniform(-3, 3); ph = rng.uniform(-3, 3); theta = rng.uniform(0.3, 3) * rng.choice([-1, 1])
+        th0 = rng.uniform(-3, 3); ph = rng.uniform(-3, 3); theta = rng.uniform(0.3, 3) * (signs[t % len(signs)] if signs else rng.choice([-1, 1]))
         for w in others:
             w.single_qubit_gate(theta, ph, 0.01, 5e-5, 4e-5); w.CR(theta, ph, 2.5e-7, 0.03, 2e-6, 1.5e-6, 3e-6, 2.5e-6)
         s3 = [np.sin(th0), np.sin(th0 / 2) ** 2, 1.0]; s2 = [np.cos(th0), np.sin(th0)]; z3 = [0, 0, 0]; z2 = [0, 0]
